@@ -177,6 +177,7 @@ def build_script(rng, name, plan):
     return text, tab, b.features
 
 
+EVALFILE = "__evaluate_expression__"
 CLEAN_PLAN = [("mark",), ("nest", "call", [("mark",)]), ("mark",)]
 
 
@@ -201,6 +202,17 @@ def make_case(rng, cid, plan, layout):
     elif layout in ("clean-then", "cli-clean-then"):
         runs = [{"scripts": [sb]}, {"scripts": [sa]}]
         tabs = {"a": tab, "b": ctab}
+    elif layout == "eval":
+        # the same statements evaluated as an expression by the embedder (runtime::evaluate_expression, what __EVAL uses)
+        runs = [{"eval": text}]
+        tabs = {EVALFILE: tab}
+    elif layout == "eval-then-clean":
+        runs = [{"eval": text}, {"scripts": [sb]}]
+        tabs = {EVALFILE: tab, "b": ctab}
+    elif layout == "eval-after-failed":
+        ftext, ftab, _ = build_script(rng, "f", [("mark",), ("errx",), ("mark",)])
+        runs = [{"scripts": [{"name": "f", "text": ftext, "suspend": False}]}, {"eval": text}]
+        tabs = {"f": ftab, EVALFILE: tab}
     else:
         runs = [{"scripts": [sa, sb]}]
         tabs = {"a": tab, "b": ctab}
@@ -262,7 +274,8 @@ def to_events(case, evs):
             f = e["file"][:-4] if e["file"].endswith(".sqf") else e["file"]
             if f not in nlines:
                 continue
-            line = e["L"] if 1 <= e["L"] <= nlines[f] else nlines[f]
+            L = e["L"] + 1 if f == EVALFILE else e["L"]       # an evaluated expression is not preprocessed: its lines count from 0
+            line = L if 1 <= L <= nlines[f] else nlines[f]
             if e["code"] == 60019:
                 out.append({"e": "Ev", "id": e["id"], "t": "Mark", "file": f, "line": line, "exc": "true" not in e["txt"].split("[DIAG_LOG]")[-1]})
             elif e["code"] == 60001:
@@ -303,11 +316,11 @@ def run(rep, tier, seed, replay):
             rep.design_runs.append({"what": "deviation ErrorNoticedLate/flag-survives refuted (non-vacuity), together=%s" % t, "generated": r2.generated, "distinct": r2.distinct})
         cases = []
         for n, plan in systematic_plans():
-            for layout in ("single", "then-clean", "beside-clean", "clean-then", "after-failed", "cli-then-clean", "cli-clean-then", "cli-after-failed"):
+            for layout in ("single", "then-clean", "beside-clean", "clean-then", "after-failed", "cli-then-clean", "cli-clean-then", "cli-after-failed", "eval", "eval-then-clean", "eval-after-failed"):
                 cases.append(make_case(rng, "sys-%s-%s" % (n, layout), plan, layout))
         nrand = 400 if tier == "quick" else 8000
         for i in range(nrand):
-            cases.append(make_case(rng, "rnd%d" % i, random_plan(rng, 0, [2]), rng.choice(["single", "then-clean", "beside-clean", "clean-then", "after-failed"])))
+            cases.append(make_case(rng, "rnd%d" % i, random_plan(rng, 0, [2]), rng.choice(["single", "then-clean", "beside-clean", "clean-then", "after-failed", "eval", "eval-then-clean"])))
     rep.evaluations = len(cases)
     rep.rule = ("an erroring statement of each kind (raised by the executing instruction / inside an iteration behaviour) at each structural position "
                 "(straight-line, last statement, inside each loop/call construct, inside handled blocks, inside handlers, nested handlers) x run layout "
